@@ -35,7 +35,7 @@ for name in names:
         res = {}
         for p in (props or allp):
             try:
-                viol = selftest.run_rules(p, fdir)
+                viol = selftest.run_rules(p, fdir, root=root)
             except Exception as e:
                 viol = [{"key": "EXC:%s" % e}]
             if viol:
